@@ -62,6 +62,9 @@ fn wide_union(rng: &mut Rng) -> Vec<Node> {
 		lprim(Kind::Fixed { name: "ns.D8".into(), size: 8 }, Logical::Decimal { precision: 10, scale: *rng.pick(&[0u32, 1]) }),
 		lprim(Kind::Fixed { name: "ns.Dur".into(), size: 12 }, Logical::Duration),
 		prim(Kind::Enum { name: "E".into(), symbols: vec!["A".into(), "B".into(), "1".into()] }),
+		// twins of the two above: equally suitable for the same calls
+		prim(Kind::Enum { name: "x.E2".into(), symbols: vec!["B".into(), "A".into()] }),
+		prim(Kind::Fixed { name: "G4".into(), size: 4 }),
 	];
 	rng.shuffle(&mut pool);
 	let n = 3 + rng.below(6);
